@@ -1,5 +1,5 @@
 """C05 - SigV4 header authentication (DESIGN.md section 3, C05)."""
-from .. import flow, guards, paths
+from .. import flow, guards, paths, inline
 from ..facts import callee_def, short
 from ..report import AnchorMissing
 from . import sigcore
@@ -133,7 +133,7 @@ def rule_r3(chk, db, v):
         p = flow.op_place(t["args"][2])
         df = flow.single_def(body, p["l"]) if p else None
         if df and df["kind"] == "assign" and df["rv"]["k"] == "agg" and df["rv"].get("agg") == "closure":
-            clo = db.body(df["rv"]["def"])
+            clo = inline.inlined(db, db.body(df["rv"]["def"]))
         if clo is None:
             chk.fail("R3", v.name + ".on-missing", body.loc(bi), "cannot find the on-missing closure")
             continue
@@ -163,41 +163,42 @@ def rule_r3(chk, db, v):
         chk.verdict(ok and bool(somes), "R3", v.name + ".on-missing", clo.loc(), what or "on-missing closure never yields a value")
 
 
-def skip_predicates(db, builder_name):
-    """literal sets of the bool predicates (workspace fns: str -> bool, body = one equality with a literal) called by a builder"""
-    b = db.body(builder_name)
-    out = {}
-    for bi, t in b.calls():
-        d = callee_def(t)
-        cb = db.body(d)
-        if cb is None or not d.startswith("s3s::sig_v4::methods::") or cb.raw.get("ret") != "bool":
+def compared_literals(db, builder_name):
+    """string literals the builder - or any function of the signing module it calls, transitively - compares names against
+    (`==` / `!=` with a literal operand).  These are the components a builder can single out for exclusion."""
+    root = db.body(builder_name)
+    if root is None:
+        raise AnchorMissing("builder %s not found" % builder_name)
+    seen = {}
+    st = [(root, 0)]
+    lits = {}
+    while st:
+        b, depth = st.pop()
+        if b.name in seen:
             continue
-        lits = set()
-        shape_ok = True
-        for b2, t2 in cb.calls():
-            d2 = callee_def(t2)
-            if d2.endswith("PartialEq::eq"):
-                for a in t2["args"]:
-                    c = flow.const_of(cb, a)
+        seen[b.name] = b
+        for c in b.children:
+            st.append((c, depth))
+        for bi, t in b.calls():
+            d = callee_def(t)
+            if d.endswith("PartialEq::eq") or d.endswith("PartialEq::ne"):
+                for a in t["args"]:
+                    c = flow.const_of(b, a)
                     if c is not None and c.get("c") == "str":
-                        lits.add(c["v"])
-            elif d2.endswith("PartialEq::ne"):
-                shape_ok = False
-            else:
-                shape_ok = False
-        out[d] = (lits, shape_ok, bi)
-    return out
+                        lits.setdefault(c["v"], b.loc(bi))
+            cb = db.body(t["callee"].get("resolved") or "") or db.body(d)
+            if cb is not None and cb.crate == "s3s" and d.startswith("s3s::sig_v4::methods::") and depth < 3:
+                st.append((cb, depth + 1))
+    return lits, seen
 
 
 def rule_r4(chk, db):
     for builder, want in ((CCR, {"authorization"}), ("s3s::sig_v4::methods::create_presigned_canonical_request", {"authorization", "X-Amz-Signature"})):
-        preds = skip_predicates(db, builder)
-        got = set()
-        for d, (lits, shape_ok, bi) in preds.items():
-            got |= lits
-            chk.verdict(shape_ok, "R4", short(builder) + ":" + short(d) + ".shape", db.body(d).loc(), "skip predicate is not a single equality with a literal", nontrivial=False)
+        lits, seen = compared_literals(db, builder)
         b = db.body(builder)
-        chk.verdict(got == want, "R4", short(builder), b.loc(), "components excluded from the canonical request: %s; the spec excludes exactly %s" % (sorted(got), sorted(want)))
+        got = set(lits)
+        chk.verdict(got == want, "R4", short(builder), b.loc(), "names the builder singles out by comparison with a literal: %s; the specification excludes exactly %s "
+                    "from the canonical request" % (sorted(got), sorted(want)), detail={"functions": sorted(short(n) for n in seen)})
 
 
 def run(chk, db, tier):
